@@ -122,7 +122,7 @@ func TestC08(t *testing.T) {
 	if explicit {
 		return
 	}
-	vcore.Check(t, vcore.N(150, 1200), func(rt *rapid.T) {
+	vcore.Check(t, vcore.N(150, 2500), func(rt *rapid.T) {
 		runPipeline(rt, pipeline.Gen(rt))
 	})
 	vcore.Check(t, vcore.N(12, 80), func(rt *rapid.T) {
@@ -144,7 +144,7 @@ func TestC08(t *testing.T) {
 		report(t, c, r)
 	}
 	g := cfg()
-	vcore.Check(t, vcore.N(1200, 4000), func(rt *rapid.T) {
+	vcore.Check(t, vcore.N(1200, 12000), func(rt *rapid.T) {
 		c := sessmodel.Case{Ops: sessmodel.Gen(rt, g)}
 		r := sessmodel.Run(c, or)
 		account(c, r)
